@@ -648,7 +648,10 @@ Definition release_ok (s : st) : bool :=
 (* the loop outlives the cleanup: when the EventLoop is destroyed it owes the client nothing any more: the connector's
    channel has been reset (resetChannel / stopInLoop have run) and every connection object is destroyed or has been through
    connectDestroyed (forceCloseInLoop / connectDestroyed have run).  It holds in particular once the functor queue and the
-   timer queue have drained (`drained`, theorem drained_outlives), and for a client destroyed while it was idle. *)
+   timer queue have drained (`drained`, theorem drained_outlives), and for a client destroyed while it was idle.
+   NOTE (REVIEW_F F-5): on reachable states on which LoopEnd is not Rejected this is exactly "LoopEnd does not fault"
+   (C12_LoopEnd.loop_outlives_exact): the clause is the negation of the fault condition, the crash-freedom theorems are trivial
+   for this op; what is proved ABOUT it is drained_outlives, loop_end_no_leak, destroy_then_loop_end_safe. *)
 Definition conn_done (o : cobj) : bool :=
   negb (calive o) || match cst o with CDisconnected => negb (creg o) | _ => false end.
 Definition loop_outlives_cleanup (s : st) : bool :=
